@@ -2,8 +2,8 @@
 """Generate MANIFEST.json from the table below (single source of truth for claimed checks)."""
 import json, os
 HERE = os.path.dirname(os.path.dirname(os.path.abspath(__file__)))
-E1_NOTE = ("Trusted base: CrossHair 0.0.110 + z3, CPython; stubs: sequential engine stand-in (engine contract established separately by the E2 checks "
-           "C01/C04/C06/C07 for N<=4, W<=3), in-memory logical-clock stores, networkx untraced. Bounds: the listed plan shapes (<=4 logical nodes); "
+E1_NOTE = ("Trusted base: CrossHair 0.0.110 + z3, CPython; stubs: sequential engine stand-in (engine contract: discharged inside the check by E2 BMC on the two "
+           "smallest instances where the property quantifies over schedules, and by the E2 checks C01/C04/C06/C07 for N<=5, W<=3), in-memory logical-clock stores, networkx untraced. Bounds: the listed plan shapes (<=4 logical nodes); "
            "symbolic ints unbounded. Outside: larger plans, overlapping store operations.")
 CHECKS = {
     "C03": dict(cat="other", tech="bounded symbolic execution (CrossHair/z3): one inductive step from an arbitrary store state satisfying a declarative invariant",
@@ -19,9 +19,11 @@ CHECKS = {
 E2_NOTE = ("Trusted base: z3 (bit-blast + sat), CPython ast, my AST->IR front end and environment model (queue.Queue contract with ANY queued item returned, "
            "Lock, Thread, networkx successors/predecessor_count, prepare_nodes closed form, fn = start/end events with symbolic outcome), Lipton reduction "
            "(lock-set fusing recomputed from the source each run). Bounds: the listed (N<=4, W<=3) instances, all schedule lengths (K is checked to be a "
-           "completeness threshold by an unwinding query). Outside: larger graphs/worker counts, real OS scheduling, GIL switch points inside C code.")
+           "completeness threshold by an unwinding query). The parts of the environment model that are uberjob's own code are discharged as E1 lemmas inside the check: "
+           "queue classes (all E2 checks), plan->engine-graph pruning (C01, C04), Kahn / cycle rejection (C07), retry and limit hand-over (C10). "
+           "Outside: larger graphs/worker counts, real OS scheduling, GIL switch points inside C code.")
 def e2(text, ref):
-    return dict(cat="model_checking", engine="E2-bmc", tech="bounded model checking (z3 bit-vectors) of a transition system generated from the AST of run_function_on_graph.py; counterexample schedules replayed on real threads",
+    return dict(cat="model_checking", engine="E2-bmc", tech="bounded model checking (z3 bit-vectors) of a transition system generated from the AST of run_function_on_graph.py, counterexample schedules replayed on real threads; plus bounded symbolic execution (CrossHair/z3) of the lemmas the model leans on",
                 text=text, ref=ref, note=E2_NOTE)
 CHECKS.update({
     "C01": e2("For every instance (concrete 3-node shapes and fully symbolic 2/3-node DAGs, W<=3) the solver shows no interleaving of the real engine statements starts a call before all its ancestors ended successfully; any model is replayed on real threads before it is reported.", "DESIGN.md §4 C01"),
